@@ -608,8 +608,11 @@ func checkIDMaps(c *Check) {
 	mapFile := func(ci ssa.CallInstruction) string {
 		for _, a := range ci.Common().Args {
 			if b, ok := a.(*ssa.BinOp); ok && b.Op == token.ADD {
-				if s, ok := constString(b.Y); ok && (s == "/uid_map" || s == "/gid_map" || s == "/setgroups") {
-					return s
+				// "/proc/<pid>" + "/uid_map" or "/proc/<pid>/" + "uid_map"
+				if s, ok := constString(b.Y); ok {
+					if s = "/" + strings.TrimPrefix(s, "/"); s == "/uid_map" || s == "/gid_map" || s == "/setgroups" {
+						return s
+					}
 				}
 			}
 		}
